@@ -4,11 +4,14 @@ import (
 	"bytes"
 	"fmt"
 	"io"
-	"math"
 
 	"github.com/tetratelabs/wazero/internal/leb128"
 	"github.com/tetratelabs/wazero/internal/wasm"
 )
+
+// maxLocalsPerFunction is the maximum number of locals (excluding parameters) a single
+// function may declare. 50000 is the limit used by V8, SpiderMonkey and Wasmtime.
+const maxLocalsPerFunction = 50000
 
 func decodeCode(r *bytes.Reader, codeSectionStart uint64, ret *wasm.Code) (err error) {
 	ss, _, err := leb128.DecodeUint32(r)
@@ -53,7 +56,10 @@ func decodeCode(r *bytes.Reader, codeSectionStart uint64, ret *wasm.Code) (err e
 		}
 	}
 
-	if sum > math.MaxUint32 {
+	// The declarations are run-length encoded: a few bytes can declare up to 2^32-1 locals,
+	// each of which is materialized below and again by the engines. Apply the same
+	// implementation limit as other runtimes before allocating anything for them.
+	if sum > maxLocalsPerFunction {
 		return fmt.Errorf("too many locals: %d", sum)
 	}
 
